@@ -1,6 +1,6 @@
 (* Props_C10.v — C10: atmospheric composition is a valid mixture for every input. *)
 From Coq Require Import Reals List Lra.
-From TV Require Import Num ListNum ListNumR Model_C10 Proofs_C10.
+From TV Require Import Num ListNum ListNumR Model_C12 Model_C10 Proofs_C10.
 Import ListNotations.
 Local Open Scope R_scope.
 
@@ -66,3 +66,9 @@ Theorem C10_twopoint_between : forall (vs vt lps lpt lp : R), lpt < lps -> lpt <
   Rmin vs vt <= a * lp + b <= Rmax vs vt.
 Proof. exact twopoint_between. Qed.
 Print Assumptions C10_twopoint_between.
+
+(* two-layer gas (in log10 of the mixing ratio): between the surface and the top value in every layer *)
+Theorem C10_twolayer_between : forall (lnP : list R) (start_l end_l : nat) (ls lt : R) (wsize0 : nat),
+  Forall (fun x => Rmin ls lt <= x <= Rmax ls lt) (@twolayer_log R RNum lnP start_l end_l ls lt wsize0).
+Proof. exact twolayer_between. Qed.
+Print Assumptions C10_twolayer_between.
